@@ -111,7 +111,7 @@ Fixpoint mk_decl_aux (sch : schema) (nm : N) (i : nat) : list nat :=
 Definition mk_decl (sch : schema) (nm : N) : list nat := mk_decl_aux sch nm 0.
 
 (** the model of a validating parse: identity-constraint error codes in emission order *)
-Definition model_doc (fixed report : bool) (sch : schema) (t : tree cval) : list ecode :=
-  run_doc cval ceq fixed report (mk_mics sch) (mk_decl sch) chash t.
+Definition model_doc (fixed fx report : bool) (sch : schema) (t : tree cval) : list ecode :=
+  run_doc cval ceq fixed fx report (mk_mics sch) (mk_decl sch) chash t.
 (** the specification's verdict *)
 Definition spec_doc (sch : schema) (t : tree cval) : list viol := doc_viols cval spec_veq sch t.
